@@ -17,6 +17,16 @@ ACTIONS = {'self.supvisors.stopper.stop_process', 'self.supvisors.stopper.defaul
            'self.supvisors.starter.start_process', 'self.supvisors.starter.default_start_process'}
 
 
+def _managed_helper_ok(P):
+    """Context.get_managed_applications returns exactly the applications whose rules are managed."""
+    u = P.unit('Context.get_managed_applications')
+    rs = [v for v, f, n in returns(u) if v is not None]
+    cv = comp_view(u, rs[0]) if len(rs) == 1 else None
+    E = 'each(self.applications.items())'
+    return cv is not None and cv['kind'] == 'dict' and cv['iters'] == ['self.applications.items()'] and \
+        cv['elt'] == (E + '[0]', E + '[1]') and cv['conds'] == {(E + '[1].rules.managed', True)}
+
+
 def rule_conflict_scan(P, R, r1):
     """conflicting() and conflicts() scan the same set: every process of every MANAGED application (shared with C08:
     a difference between the two parks the Master in CONCILIATION with nothing to conciliate)."""
@@ -33,6 +43,12 @@ def rule_conflict_scan(P, R, r1):
             if cv['iters'] == ['self.applications.values()', A + '.processes.values()'] and \
                     (A + '.rules.managed', True) in whole and \
                     ((PR + '.conflicting()', True) in whole or cv['elt'] == PR):
+                ok = True
+            # or through the helper that selects the managed applications (its definition is checked below)
+            A2 = 'each(self.get_managed_applications().values())'
+            PR2 = 'each(%s.processes.values())' % A2
+            if cv['iters'] == ['self.get_managed_applications().values()', A2 + '.processes.values()'] and \
+                    ((PR2 + '.conflicting()', True) in whole or cv['elt'] == PR2) and _managed_helper_ok(P):
                 ok = True
         R.check(r1, ok, '%s scans the processes of managed applications only' % q, 'managed|%s' % q, u.loc(),
                 '%s does not restrict the conflict scan to `application.rules.managed` over all applications and '
